@@ -51,6 +51,7 @@ FIXED_COMMITS = {"K-catch-pop": "790993c", "K-stale-error-ip-a": "26bae81", "K-s
 
 # ---- other properties: (property, id, status, commit, title, scenario dict)
 from sim.props import c09, c15, c12, c01, c16, c14
+BMCYCLE = c01.OPS.index("bmcycle({u})")
 OTHER = [
  ("C14", "K-import-at-frame-limit-reseeds-handler-module", "fixed", "f3dd6b3",
   "an import whose module body could not be called (call stack at its limit; the IndexError was caught) installed the built-ins into the module of the handler instead of the new module: a built-in name the main script had rebound was silently reset",
@@ -69,6 +70,12 @@ OTHER = [
  ("C01", "K-instance-reclaimed-during-field-call", "fixed", "c7ee09c",
   "invoke() kept a temporary instance borrowed while the callable stored in one of its fields ran",
   {"ir": {"gadgets": [["op", 40, 1000, "global"]], "reset": False}, "gc_tape": "ff" * 64, "gc_rate": 2}),
+ ("C01", "K-collector-recursion-through-bound-method-cycle", "fixed", "0e99acf",
+  "ObjBoundMethod::blacken() marked its receiver grey again instead of blackening it: with a bound method kept where its receiver is reachable by a second path (v.push(v.push) plus another reference to v) the collector recursed until the native stack overflowed at the next collection (4-line script, stock release CLI)",
+  {"ir": {"gadgets": [["op", BMCYCLE, 1000, "global"]], "reset": False, "hostheld": False, "hostmod": 0}, "gc_tape": "ff" * 64, "gc_rate": 2}),
+ ("C01", "K-closure-does-not-keep-its-module", "fixed", "4cd8f38",
+  "ObjClosure did not trace the module it was defined in (only the interpreter's module table did): a closure of an imported module that the host keeps rooted across Vm::reset() and hands back with set_global() ran with its module reclaimed",
+  {"ir": {"gadgets": [], "reset": True, "hostheld": True, "hostmod": 0}, "gc_tape": "ff" * 64, "gc_rate": 2}),
  ("C01", "K-unwind-leaves-captured-variables-open", "fixed", "0143da8",
   "exception unwinding cut the stack back without closing open captured variables: a closure created in a try block (or callee) left by an exception pointed at a slot the collector no longer traced (use after reclaim) or that later pushes overwrote",
   {"ir": {"gadgets": [["chain", "capture_in_scope_left_by_exception", ["closed_capture"], "vec", 1050, 0]], "reset": False}, "gc_tape": "ff" * 64, "gc_rate": 2}),
